@@ -137,7 +137,19 @@ FragEv ==
                           IF x = k THEN E.out ELSE lastfrag[x]]
   /\ nops' = nops + 1 /\ UNCHANGED <<cells, ntok, obs, hist>>
 
-TNext == FilesEv \/ BuildEv \/ FileEv \/ RenderEv \/ FragEv
+\* s.Render(w): the implicit File is fresh; the twin is s.RenderWithFile(w, NewFile("")) (C14: the entry points agree)
+PlainEv ==
+  /\ Consume("Plain") /\ UNCHANGED tid
+  /\ LET r == RenderFragment(EmptyCfg, Tree(cells, E.c), <<>>)
+     IN /\ (E.status = "nil" /\ Toks(r[1]) # E.toks) => Report("DRIFT", "plain tokens")
+        /\ (E.status = "panic") => Report("C02", "panic in the system tier")
+        /\ (E.status = "nil" /\ ~E.parses) => Report("C02", "nil but the output does not parse (system tier)")
+        /\ (E.status # "nil" /\ E.nbytes # 0) => Report("C10", "a failed render wrote to the writer (system tier)")
+        /\ (~E.twin) => Report("C14", "Render and RenderWithFile with a fresh File disagree (system tier)")
+        /\ (~E.twin2) => Report("C14", "GoString and Render disagree (system tier)")
+  /\ nops' = nops + 1 /\ UNCHANGED <<cells, files, ntok, obs, bound, hist, clean, lastfrag>>
+
+TNext == FilesEv \/ BuildEv \/ FileEv \/ RenderEv \/ FragEv \/ PlainEv
 TSpec == TInit /\ [][TNext]_tvars
 \* line 1 (the universe) is read by TInit
 Accepted == TLCGet("stats").diameter = Len(Trace)
